@@ -1,4 +1,4 @@
-import Librfn.Lemmas.IsrMonV
+import Librfn.Lemmas.IsrFifo
 /-!
 # C06 — interrupt-context wake-ups and fibre events are never lost or duplicated
 (and C03's interrupt clause `wakeup_with_isr`)
@@ -139,21 +139,32 @@ theorem fast_path_not_taken {s : S} (hr : ReachIsr s) (hh : s.hung = false) (hpc
   have he := not_empty_of_inAq h1 (reach_owned hR).1 (quiet_of_reachIsr hr hh) hin
   simp only [mainAtomic, hpc, tok_mpc, emit_mpc, he]
 
-/-- FIFO dispatch, the full liveness clause: a fibre at position `i` of the run queue is dispatched by one of the next
-    `i + 1` passes, without further stimulus (no interrupt, no other call).  NOT proved (it needs a termination argument
-    for whole passes); the correspondence run checks it on every history through the monitor's `starved` verdict. -/
-def dispatch_within_runq_passes : Prop :=
-  ∀ (s : S), ReachIsr s → s.hung = false → s.mpc = .idle → ∀ (f : Fid) (i : Nat), s.k.runq[i]? = some f →
-    ∀ (ts : List (BitVec 32)), ts.length = i + 1 →
-      Tok.disp f ∈ (ts.foldl (fun s t => callMain noGap (.next t) s) { s with trace := [] }).trace
+/-- **dispatch_within_runq_passes** — FIFO dispatch, the liveness clause: a fibre at position `i` of the run queue is
+    dispatched by one of the next `i + 1` passes of `fibre_scheduler_next` *without any further stimulus* (no interrupt, no
+    other call; the passes may be at any times).  `passes ts s` runs one uninterrupted pass per element of `ts`.
+    Holds from every reachable state; the only hypothesis is that the executable runner was not cut for lack of fuel
+    (`hung = false`, an explicit decidable output — every fibre body of the model returns). -/
+theorem dispatch_within_runq_passes {s : S} (hr : Reach s) (f : Fid) (i : Nat) (hf : s.k.runq[i]? = some f)
+    (ts : List (BitVec 32)) (hlen : ts.length = i + 1) (hh : (passes ts s).hung = false) :
+    Tok.disp f ∈ (passes ts s).trace :=
+  fifo_dispatch i s f ts hr hf hlen hh
 
-/-- what is proved of it: `make_runnable` keeps the queue or appends at its tail -/
-theorem dispatch_within_runq_passes_partial (k : Librfn.Model.Fibre.K) (f : Fid) :
-    (Librfn.Model.Fibre.makeRunnable k f).runq = k.runq ∨ (Librfn.Model.Fibre.makeRunnable k f).runq = k.runq ++ [f] := by
+/-- one uninterrupted pass dispatches the head of the run queue; the rest of the queue moves up by one and new entries
+    join at the tail (the step of the induction above) -/
+theorem pass_dispatches_the_head {s : S} (hr : Reach s) (c : Fid) (r : List Fid) (hrq : s.k.runq = c :: r) (t : BitVec 32)
+    (hh : (callMain noGap (.next t) s).hung = false) :
+    Tok.disp c ∈ (callMain noGap (.next t) s).trace ∧ ∃ l, (callMain noGap (.next t) s).k.runq = r ++ l := by
+  rcases pass_dispatches_head hr c r hrq t with e | ⟨_, _, hd, _, hl⟩
+  · rw [hh] at e; cases e
+  · exact ⟨hd, hl⟩
+
+/-- the instant a request joins the run queue (`make_runnable` of a fibre not yet queued) its position is the length of
+    the queue: so an accepted request that is not killed is dispatched within `|runq at that instant| + 1` further passes -/
+theorem joins_at_the_tail (k : Librfn.Model.Fibre.K) (g : Fid) (hg : g ∉ k.runq) :
+    (Librfn.Model.Fibre.makeRunnable k g).runq[k.runq.length]? = some g := by
   unfold Librfn.Model.Fibre.makeRunnable
-  split
-  · exact Or.inl rfl
-  · exact Or.inr rfl
+  rw [if_neg hg]
+  simp
 
 /-! ## events_exactly_once_in_order -/
 
@@ -391,6 +402,11 @@ example : (∀ it ∈ demo, ItemOk 4 it) ∧ (runHistory demoCfg (demo ++ [.quie
 theorem sent_event_keeps_handler_owed {n : Nat} {s : S} (hr : ReachR n s) (h : s.a.mustGet ≠ []) :
     HANDLER ∈ s.a.owedFids ∨ HRunning s :=
   (reachR_monW hr).mm h
+
+-- dispatch_within_runq_passes: fibre 3 at position 2 of the run queue, three uninterrupted passes, not cut
+example : (runHistory demoCfg [.main { call := .run 1 }, .main { call := .run 2 }, .main { call := .run 3 }]).k.runq[2]? = some 3
+    ∧ (passes [10, 10, 11] (runHistory demoCfg [.main { call := .run 1 }, .main { call := .run 2 }, .main { call := .run 3 }])).hung = false := by
+  decide +kernel
 
 /-! ## the executable runner -/
 
